@@ -51,8 +51,14 @@ def path_join_safe(root_directory: str, filename: str):
     if ".." in parts or "." in parts:
         raise ValueError("invalid path")
 
+    root_directory = os.path.abspath(root_directory)
     path = os.path.join(root_directory, filename)
     path = os.path.abspath(path)
+
+    # an absolute filename replaces the root directory when joined
+    prefix = root_directory.rstrip(os.sep) + os.sep
+    if path != root_directory and not path.startswith(prefix):
+        raise ValueError("invalid path")
 
     return path
 
